@@ -204,6 +204,8 @@ var clsWrap = []string{
 	"(function(){ %s })()",
 	"[1].forEach(function(){ %s })",
 	"new (function(){ %s })()",
+	"EVAL", // inside direct eval code
+	"INDIRECT", // inside indirect (global) eval code
 }
 
 func implCls(kind string, v int) string {
@@ -213,7 +215,15 @@ func implCls(kind string, v int) string {
 	}
 	c := cs[v%len(cs)]
 	w := clsWrap[(v/len(cs))%len(clsWrap)]
-	body := fmt.Sprintf(w, c)
+	body := ""
+	switch w {
+	case "EVAL":
+		body = "eval(" + jsStr(c) + ")"
+	case "INDIRECT":
+		body = "(0, eval)(" + jsStr(c) + ")"
+	default:
+		body = fmt.Sprintf(w, c)
+	}
 	src := `var r = "no-throw"; try { ` + body + ` } catch (e) {
   var cs = [["EvalError", EvalError], ["RangeError", RangeError], ["ReferenceError", ReferenceError], ["SyntaxError", SyntaxError], ["TypeError", TypeError], ["URIError", URIError], ["Error", Error]];
   var inst = [];
@@ -233,7 +243,20 @@ r`
 	if err != nil {
 		return "run-error:" + hx(err.Error())
 	}
-	return strings.ReplaceAll(val.String(), " ", "_")
+	out := strings.ReplaceAll(val.String(), " ", "_")
+	// the same construct uncaught: Run's error text must be String(e) as the script saw it
+	val2, err2 := otto.New().Run("var s = \"no-throw\"; try { " + body + " } catch (e) { s = String(e) } s")
+	_, err3 := otto.New().Run(body)
+	if err2 != nil || err3 == nil {
+		return out + ",uncaught-run-inconsistent"
+	}
+	if _, ok := err3.(*otto.Error); !ok {
+		return out + fmt.Sprintf(",errtype:%T", err3)
+	}
+	if err3.Error() != val2.String() {
+		return out + ",runtext-differs"
+	}
+	return out
 }
 
 // ---- Run's error text
